@@ -146,7 +146,13 @@ string object_name(object ob) { while (1) ; return "x"; }
 #endif
 int valid_link(string from, string to) { rec("VL " + from + " " + to); return 1; }
 int valid_bind(object binder, object old_owner, object new_owner) { return 1; }
+#ifdef LOGERR_LOADS
+// a master that needs a helper object to log a compile error: the helper is loaded (from its saved binary) in the middle of
+// the compilation that reports the error
+void log_error(string file, string msg) { object h; rec("LOGERR " + file + " " + msg); catch(h = load_object("/x/lhelp")); if (h) destruct(h); }
+#else
 void log_error(string file, string msg) { rec("LOGERR " + file + " " + msg); }
+#endif
 
 #ifndef NO_ERROR_HANDLER
 string error_handler(mapping err, int caught) {
